@@ -95,6 +95,11 @@ S(id="A.fail.native", props=["C17"], spec="native/alloc_fail_enum.c", mode="N", 
   bound="every k up to the last memory request of: yaep_create_grammar, yaep_parse_grammar, yaep_read_grammar, yaep_parse on three inputs/settings of one expression grammar",
   functions=["yaep_create_grammar", "yaep_parse_grammar", "yaep_read_grammar", "yaep_parse", "yaep_free_grammar"],
   what="the k-th memory request of the call fails (libc allocator interposed), for every k: NULL / YAEP_NO_MEMORY, no crash, the object is still usable and can be freed, another object is unaffected")
+S(id="D.diff.native", props=["C11"], spec="native/desc_diff_enum.c", mode="N", link=["allocate.c", "hashtab.c", "objstack.c", "vlobject.c", "yaep.c"], harness="main", timeout=3600,
+  params={"quick": {"NSYM": 3, "INLEN": 2}, "thorough": {"NSYM": 4, "INLEN": 3}},
+  bound="descriptions with one rule of 1..2 alternatives of <= 2 symbols over {'a', B, N} (thorough + C=7) and 7 translation forms; right-hand sides of 1..130 symbols; inputs of length <= 2 (thorough 3); with/without cost flag",
+  functions=["yaep_parse_grammar", "yyparse (bison actions)", "set_sgrammar", "sread_terminal", "sread_rule"],
+  what="yaep_parse_grammar on a description and yaep_read_grammar on the grammar the text denotes give the same definition result and the same parse results and trees (names, costs, codes)")
 S(id="HT.hpn.native", props=["C19"], spec="native/ht_prime.c", mode="N", link=["hashtab.c", "allocate.c"], harness="main",
   params={"quick": {"K": 20000}, "thorough": {"K": 2000000}}, bound="all requested sizes 0..K",
   functions=["higher_prime_number"], what="assumed clause of hpn_assumed_c: result is a prime in (n, 2n+3]")
@@ -358,7 +363,7 @@ DEMOS = {"API.parse": ["F1"], "API.parse.unwind": ["F1", "F25"], "S.flags": ["F2
          "RG.prefix": ["F4"], "D.front": ["F5"], "G.free": ["F6", "F1"], "G.free.symb_fin": ["F6"], "UB.lex": ["F7", "F9"], "D.codes": ["F8"], "S.codes256": ["F8"],
          "G.create": ["F10"], "P.step.base": ["F13"], "P.restore": ["F13"], "G.ctx": ["F18"], "UB.tset.up": ["F21"], "UB.tset.test": ["F21"]}
 # + demonstration programs written by the independent sub-agents for their seeded changes (API-level, public headers only)
-for k, v in {"RG.prefix": ["S_C15_m1"], "RG.verdict.native": ["F27"], "G.history.native": ["F18", "F6", "F4", "F1"], "RG.intake.native": ["F28"], "G.free": ["S_C14_m2"], "G.create": ["S_C17_m1"], "TOK.find": ["S_C12_m2"], "UB.lex": ["S_C11_m1"], "UB.msg.arg": ["S_C12_m1"],
+for k, v in {"RG.prefix": ["S_C15_m1"], "RG.verdict.native": ["F27"], "D.diff.native": ["F32"], "G.history.native": ["F18", "F6", "F4", "F1"], "RG.intake.native": ["F28"], "G.free": ["S_C14_m2"], "G.create": ["S_C17_m1"], "TOK.find": ["S_C12_m2"], "UB.lex": ["S_C11_m1"], "UB.msg.arg": ["S_C12_m1"],
              "OS.top.add_byte": ["S_C19_m2"], "HT.remove": ["S_C19_m1"], "A.wrap.realloc": ["S_C17_m2"], "D.front": ["S_C17_m3"], "P.step.base": ["S_C04_m1"],
              "T.size.copy": ["S_C04_m2"], "S.oneparse": ["S_C14_m1"], "T.anode_reset": ["S_C13_m1"], "T.free.native": ["S_C13_m2", "F26"], "VLO.grow": ["S_C19_m3"]}.items():
     DEMOS[k] = DEMOS.get(k, []) + v
